@@ -1,10 +1,15 @@
 package c15
 
-import "verif/e2"
+import (
+	"encoding/json"
+
+	"verif/e2"
+)
 
 // The end-to-end half of C15: attribution of rows to the table announced for
 // their table id, decoding with the latest table map, mapper calls (engine E2).
 func init() {
-	ExtraHalves = append(ExtraHalves, e2.RunAttribution)
+	ExtraHalves = append(ExtraHalves, e2.RunAttribution, e2.RunOrdinalAttribution)
+	ExtraReplays["history"] = func(in json.RawMessage) (bool, string) { return e2.ReplayHistory("history", in) }
 	ExtraReplays["attribution"] = e2.ReplayAttribution
 }
